@@ -646,10 +646,12 @@ Proof. vm_compute. reflexivity. Qed.
 Example tmpl_example_wellformed : wellformed (gen_cfg tmpl_example) = true.
 Proof. vm_compute. reflexivity. Qed.
 
-(* The known finding (strict-host): SyncConfig gave b.example the root backend of the
-   default host; the service of that backend was deleted and the backend went away in a
-   partial sync that did not visit b.example. Every invariant but "the paths of the hosts
-   name backends of the model" holds, and the map value is a dangling reference. *)
+(* The strict-host finding (repaired in /repo by 423708d: the root path SyncConfig gives to
+   the hosts without one is now re-evaluated on every update; the witness stays as a
+   model-level regression): SyncConfig gave b.example the root backend of the default host;
+   the service of that backend was deleted and the backend went away in a partial sync that
+   did not visit b.example. Every invariant but "the paths of the hosts name backends of the
+   model" holds, and the map value is a dangling reference. *)
 Definition strict_host_state : tstate :=
   {| ts_hosts :=
        [ {| th_name := "b.example"; th_pass := false; th_httppass := ""; th_tls := false;
